@@ -116,9 +116,58 @@ def writer_round_trip(report, folder):
                              "XlsxRowWriter: table %r reads back as %r" % (table, back))
 
 
+def shortest_digits(x):
+    """Number of significant digits of the shortest decimal text that reads back as exactly x (found by trying 1..17)."""
+    for precision in range(1, 18):
+        if float("%.*g" % (precision, x)) == x:
+            return precision
+    return 17
+
+
+def significant_digits(text):
+    mantissa = text.lower().lstrip("-").split("e")[0].replace(".", "").lstrip("0")
+    return len(mantissa.rstrip("0")) or 1
+
+
+def finite_floats(report, folder):
+    """
+    'Other numbers as the shortest text denoting the same value' for finite floats outside what TLC can hold: the oracle is
+    the definition itself (the text reads back as the same value and no shorter one does), not repr().
+    """
+    import xlsxwriter
+    from cutplace import rowio
+    rng = core.rng(161)
+    values = [10.0 ** e for e in (-300, -100, -20, -10, -7, -5, -4, 15, 16, 17, 20, 22, 23, 100, 300)]
+    values += [1.5e300, 2.5e-10, 1.25e20, 123456789.125e10, 0.1, 0.2, 1 / 3.0, 2 / 3.0, 1e21 + 1e5, 5e-324, 1.7976931348623157e308]
+    values += [rng.uniform(-1, 1) * 10.0 ** rng.randrange(-30, 30) for _ in range(150)]
+    values += [-v for v in values[:20]]
+    # a workbook file stores numbers as decimal text with 16 significant digits (xlsxwriter writes "%.16G"): that is the value
+    values = [float("%.16G" % v) for v in values if abs(v) < 1e308]
+    path = os.path.join(folder, "floats.xlsx")
+    workbook = xlsxwriter.Workbook(path)
+    sheet = workbook.add_worksheet()
+    for y, value in enumerate(values):
+        sheet.write_number(y, 0, value)
+    workbook.close()
+    rows = list(rowio.excel_rows(path))
+    for value, row in zip(values, rows):
+        report.replayed += 1
+        text = row[0]
+        try:
+            same = float(text) == value
+        except ValueError:
+            same = False
+        if not same or significant_digits(text) != shortest_digits(value) or (value == int(value) and abs(value) < 1e15 and "." in text):
+            report.violation("c16", {"float": repr(value)}, "shortest text denoting %r" % value, text,
+                             "numeric cell %r is read as %r, which %s" % (
+                                 value, text, "denotes another value" if not same else "is not the shortest text for it"))
+    report.notes["finite_floats"] = "%d finite floats (powers of ten 1e-300..1e300, extremes, seeded random) checked by round trip " \
+                                    "and minimal digit count (outside the TLA+ model: TLC has no floating point)" % len(values)
+
+
 def replay(behaviour, report=None):
     core.import_repo()
-    if "writer_table" in behaviour:
+    if "writer_table" in behaviour or "float" in behaviour:
         return []
     folder = core.workdir("c16replay")
     try:
@@ -161,6 +210,7 @@ def run(tier, report):
             raise core.MachineryError("ReadsRequestedSheet = FALSE (D3) gave no counterexample")
         report.notes["expected_counterexamples"] = [{"cfg": "Excel_pinned.cfg", "deviation": "D3 always reads the first sheet"}]
         writer_round_trip(report, folder)
+        finite_floats(report, folder)
         if not report.violations:
             for vec in first:
                 if vec["expected"] and vec["expected"][0][0]:
@@ -173,8 +223,9 @@ def run(tier, report):
         core.cleanup(folder)
     report.exhaustive = tier == "thorough"
     report.assumptions += [
-        "'shortest text denoting the same value' is covered for whole numbers up to 2^53 and dyadic fractions with <= 4 fractional "
-        "bits only (TLC has no floating point); arbitrary finite floats are not decided",
+        "'shortest text denoting the same value' is decided by the specification for whole numbers up to 2^53 and dyadic "
+        "fractions with <= 4 fractional bits only (TLC has no floating point); other finite floats are checked by the harness alone "
+        "(round trip and minimal digit count)",
         "workbooks are produced with xlsxwriter; xlrd is the reader the code uses",
     ]
     return report.finish(rule="one case = (workbook of 1..3 sheets with ragged rows of cells of the pool, requested sheet) from TLC, "
